@@ -77,6 +77,12 @@ CHECKS["C13"] = dict(
    text="1426 (quick) / 4086 (thorough) programs - every script of <= 2/3 operations {create auto-id channel, create negotiated pair, send, send burst with threshold, close, stop} with anchors {before start, INIT in flight, COOKIE in flight, established, same instant} x peer behaviour {idle, echo then close, create at the same instant, create and close} x client/server role x reliability - each explored with all executions of <= 1 (<= 2 for short scripts in thorough) drop/dup/reorder/timer/operation deviations on the real code, plus 83 (label, protocol) pairs over Unicode. Oracle: one faithful datachannel event, id uniqueness, forward-only readyState with <= 1 open/close, exact bufferedAmount and bufferedamountlow crossings at every point; after healing: closed on both ends, freed id re-usable under loss, all closed when the association ended.",
    note="DTLS stand-in; send never suspends; bufferedAmount reference read from the transport's message queue; empty messages (1 placeholder byte) allowed as slack; one open known finding (close before establishment).",
    design="2/C13")
+CHECKS["C14"] = dict(
+   level="model_checking",
+   technique="explicit-state exploration of call histories: the complete tree of enabled operations up to depth D is enumerated on a JSEP reference model and every history is replayed on a fresh pair of real RTCPeerConnections, comparing outcome, state and side effects after every call",
+   text="All call histories of length 5 (quick: 151 330) / 6 (thorough) over both peers x {createOffer, createAnswer, setLocal(own offer), setLocal(own answer), implicit setLocal, setRemote(peer's offer), setRemote(peer's answer), setRemote(answer with a dropped / re-typed m-section), setRemote(description without ice-ufrag / rtcp-mux, answer with actpass), close} are replayed on real peer connections (virtual loop, fake ICE); after every call the outcome class, signalingState and, for failed calls, unchanged signalingState/localDescription/remoteDescription and the absence of events are compared with the JSEP table; closed is absorbing.",
+   note="aioice replaced by a fake connection; createOffer while a remote offer is pending left unconstrained; artefacts of an earlier round may be accepted or rejected with ValueError; events of successful calls are not constrained.",
+   design="2/C14")
 NOT_YET = {}
 
 def main():
